@@ -29,6 +29,7 @@ type HarnessSpec struct {
 	NoIfConv  bool             `json:"no_ifconv"`
 	MaxConcretize int          `json:"max_concretize"`
 	ThoroughOnly bool          `json:"thorough_only"`
+	Solver    string           `json:"solver"` // z3-new (default) or z3 (4.8.12, much faster on some FP queries)
 	What      string           `json:"what"`
 }
 
